@@ -7,12 +7,13 @@ from vlib import log
 FAMILY = "DutiesCache"
 PID = "C20"
 KINDS = ["prop", "att", "sync"]
-RULE = ("schedules = sequences of Call(r,kind,epoch,index set)/Compute(r)/Deliver(r) (the beacon node computes / delivers "
-        "the answer of request r: every fetch is gated)/Reorg(e0)/Invalidate(e0)/Trim(ep)/Mutate(answer)/Par[...] "
+RULE = ("schedules = sequences of Call(r,kind,epoch,index set)/Compute(r[,fail])/Deliver(r) (the beacon node computes -- or "
+        "fails -- / delivers the answer of request r: every fetch is gated)/Reorg(e0)/Invalidate(e0)/Trim(ep)/Mutate(answer)/Par[...] "
         "(steps started concurrently) over a versioned beacon truth table (validators with none, one or several duties; "
         "a reorg changes contents and assignment); generated (a) by TLC simulation of DutiesCacheGen, (b) by a seeded "
         "random generator (overlapping / disjoint / repeated index sets, fetches straddling reorg+invalidate, trims, "
-        "mutation of returned answers, concurrent groups) and (c) fixed probe schedules; executed on "
+        "mutation of returned answers, failing beacon calls on cold / partially cached epochs followed by retries, "
+        "concurrent groups) and (c) fixed probe schedules; executed on "
         "eth2wrap.NewDutiesCache over the gated beaconmock; distinct = distinct recorded traces")
 
 
@@ -42,8 +43,9 @@ def subset(r, vals):
 class Gen:
     """Keeps just enough bookkeeping to emit applicable steps (the executor skips steps that do not apply)."""
 
-    def __init__(self, r, kinds, epochs, vals):
+    def __init__(self, r, kinds, epochs, vals, pfail=0.0):
         self.r, self.kinds, self.epochs, self.vals = r, kinds, epochs, vals
+        self.pfail = pfail   # probability that a beacon call fails instead of answering
         self.steps = []
         self.phase = {}      # request id -> "A" (waiting for Compute) | "B" (waiting for Deliver)
         self.reorgs = 0
@@ -72,10 +74,15 @@ class Gen:
         (self.steps if out is None else out).append({"ev": "Call", "r": i, "k": k, "e": e, "S": list(S)})
         return i
 
-    def compute(self, i, out=None):
+    def compute(self, i, out=None, fail=None):
         if self.phase.get(i) == "A":
             self.phase[i] = "B"
-            (self.steps if out is None else out).append({"ev": "Compute", "r": i})
+            st = {"ev": "Compute", "r": i}
+            if fail is None:
+                fail = self.pfail > 0 and self.r.random() < self.pfail
+            if fail:
+                st["fail"] = True
+            (self.steps if out is None else out).append(st)
 
     def deliver(self, i, out=None):
         if self.phase.get(i) == "B":
@@ -83,8 +90,8 @@ class Gen:
             self.nans += 1
             (self.steps if out is None else out).append({"ev": "Deliver", "r": i})
 
-    def finish(self, i):
-        self.compute(i)
+    def finish(self, i, fail=None):
+        self.compute(i, fail=fail)
         self.deliver(i)
 
     def progress(self):
@@ -146,10 +153,13 @@ class Gen:
             self.steps.extend(sub)
 
 
-def random_schedules(seed, n, big, concurrent):
-    r = vlib.rng(seed, "c20" + ("par" if concurrent else "seq"))
+def random_schedules(seed, n, big, concurrent, bnfail=False):
+    r = vlib.rng(seed, "c20" + ("par" if concurrent else "seq") + ("fail" if bnfail else ""))
     out = []
     for _ in range(n):
+        if bnfail:
+            out.append(bnfail_schedule(r, big, concurrent))
+            continue
         profile = r.choice(["overlap", "overlap", "straddle", "straddle", "trim", "mutate", "mixed", "mixed"])
         nv = r.randint(2, 5)
         vals = sorted(r.sample(range(1, 9), nv))
@@ -162,7 +172,7 @@ def random_schedules(seed, n, big, concurrent):
         else:
             kinds = KINDS if r.random() < 0.5 else r.sample(KINDS, r.randint(1, 2))
             epochs = sorted(r.sample(range(0, 10), r.randint(1, 3)))
-        g = Gen(r, kinds, epochs, vals)
+        g = Gen(r, kinds, epochs, vals, pfail=r.choice([0.0, 0.0, 0.1, 0.25]))
         g.steps.append({"ev": "Config", "asg": random_table(r, kinds, epochs, vals, 4)})
         L = r.randint(8, 40 if not big else 80)
         for _ in range(L):
@@ -246,6 +256,72 @@ def random_schedules(seed, n, big, concurrent):
     return out
 
 
+def bnfail_schedule(r, big, concurrent):
+    """The beacon-node-failure dimension: one kind, one or two epochs, index sets that GROW (so that an epoch is cached
+    for a strict subset of what is asked for next), a beacon node that fails a good part of its calls, retries of the
+    failed request, the occasional reorg+invalidation / trim with a failing call in flight."""
+    kinds = [r.choice(KINDS)]
+    nv = r.randint(3, 5)
+    vals = sorted(r.sample(range(1, 9), nv))
+    epochs = sorted(r.sample(range(0, 10), r.randint(1, 2)))
+    g = Gen(r, kinds, epochs, vals, pfail=r.choice([0.3, 0.5, 0.7]))
+    # dense table: most validators have a duty in every version, so that a missing index matters
+    asg = []
+    for k in kinds:
+        for e in epochs:
+            for x in vals:
+                for v in range(4):
+                    n = r.choice([0, 1, 1, 1, 2, 2]) if k == "prop" else r.choice([0, 1, 1, 1, 1])
+                    if n:
+                        asg.append({"k": k, "e": e, "x": x, "v": v, "n": n})
+    g.steps.append({"ev": "Config", "asg": asg})
+    k = kinds[0]
+    grown = {e: [] for e in epochs}       # indices asked for so far (successfully or not), per epoch
+    L = r.randint(6, 24 if not big else 48)
+    for _ in range(L):
+        x = r.random()
+        if concurrent and x < 0.3:
+            g.par()
+            continue
+        e = r.choice(epochs)
+        if x < 0.55:
+            # ask for what was asked before plus something new (or a subset: fully cached -> no beacon call)
+            rest = [v for v in vals if v not in grown[e]]
+            S = list(grown[e])
+            if rest and r.random() < 0.75:
+                S += r.sample(rest, r.randint(1, min(2, len(rest))))
+            elif S and r.random() < 0.5:
+                S = r.sample(S, r.randint(1, len(S)))
+            if not S:
+                S = [r.choice(vals)]
+            r.shuffle(S)
+            grown[e] = sorted(set(grown[e]) | set(S))
+            i = g.call(k, e, S)
+            if i and r.random() < 0.75:
+                g.finish(i)
+                if r.random() < 0.5:      # retry the same request with a node that has recovered
+                    j = g.call(k, e, S)
+                    if j:
+                        g.finish(j, fail=False)
+        elif x < 0.8:
+            g.progress()
+        elif x < 0.9:
+            e0 = g.reorg(max(0, e - 1)) if r.random() < 0.6 else None
+            g.invalidate(e0 if e0 is not None else max(0, e - 1))
+            grown = {e: [] for e in epochs}
+        elif x < 0.95:
+            g.trim()
+        else:
+            g.mutate()
+    for i in sorted(g.phase):
+        g.finish(i)
+    for (kk, e, S) in g.recent[-3:]:
+        i = g.call(kk, e, S)
+        if i:
+            g.finish(i, fail=False)
+    return g.steps
+
+
 def T(k, e, x, v, n):
     return {"k": k, "e": e, "x": x, "v": v, "n": n}
 
@@ -288,6 +364,32 @@ def probe_schedules():
                     {"ev": "Compute", "r": 2}, {"ev": "Deliver", "r": 2}, {"ev": "Reorg", "e0": 2},
                     {"ev": "Invalidate", "e0": 2}, call(3, 2, [1, 2]), call(4, 5, [1]), {"ev": "Compute", "r": 4},
                     {"ev": "Deliver", "r": 4}, {"ev": "Invalidate", "e0": 5}, call(5, 5, [1])])
+        # ---- the beacon node fails a call ----
+        C = lambda r: {"ev": "Compute", "r": r}
+        F = lambda r: {"ev": "Compute", "r": r, "fail": True}
+        D = lambda r: {"ev": "Deliver", "r": r}
+        # epoch cached for a strict subset of the request, the call for the missing index fails; retry once the node
+        # has recovered (asks for the missing index again); then fully cached
+        out.append([cfg, call(1, 5, [1]), C(1), D(1), call(2, 5, [1, 2]), F(2), D(2), call(3, 5, [2, 1]), C(3), D(3),
+                    call(4, 5, [1, 2])])
+        # cold epoch, failing call; retry; a fully cached request never reaches the node; growing the set fails again
+        out.append([cfg, call(1, 5, [1, 2]), F(1), D(1), call(2, 5, [1, 2]), C(2), D(2), call(3, 5, [2, 1]),
+                    call(4, 5, [1, 2, 3]), F(4), D(4), call(5, 5, [1]), call(6, 5, [3, 1, 2]), C(6), D(6),
+                    call(1, 5, [3, 2])])
+        # a failing call concurrent with another caller's successful fetch of the same epoch (both orders of return)
+        out.append([cfg, call(1, 5, [1]), C(1), D(1), call(2, 5, [1, 2]), call(3, 5, [2, 1, 3]),
+                    {"ev": "Par", "steps": [F(2), C(3)]}, {"ev": "Par", "steps": [D(2), D(3)]}, call(4, 5, [1, 2, 3]),
+                    call(5, 5, [2])])
+        out.append([cfg, call(1, 5, [1]), C(1), D(1), call(2, 5, [1, 2]), call(3, 5, [2, 1, 3]), C(3), D(3), F(2), D(2),
+                    call(4, 5, [1, 2]), call(5, 5, [2, 1]), F(2), D(2)])
+        out.append([cfg, call(1, 5, [1]), C(1), D(1), call(2, 5, [1, 2]), call(3, 5, [2, 3]), F(2), D(2), C(3), D(3),
+                    call(4, 5, [1, 2, 3])])
+        # a failing call straddling reorg + InvalidateCache, and one straddling Trim
+        out.append([cfg, call(1, 5, [1]), C(1), D(1), call(2, 5, [1, 2]), {"ev": "Reorg", "e0": 4},
+                    {"ev": "Invalidate", "e0": 4}, F(2), D(2), call(3, 5, [1, 2]), C(3), D(3), call(4, 5, [1, 3]), F(4),
+                    D(4), call(5, 5, [3, 1]), C(5), D(5)])
+        out.append([cfg, call(1, 2, [1]), C(1), D(1), call(2, 2, [1, 2]), F(2), {"ev": "Trim", "ep": 6}, D(2),
+                    call(3, 2, [1, 2]), C(3), D(3), call(4, 2, [2])])
     return out
 
 
